@@ -28,11 +28,12 @@
     NOT PROVED HERE (not statements about real numbers): "finite" (every real is), and all
     binary64 accuracy figures of the property — 1e-6 relative for v and w, the 1e-13/t and
     1e-14/t rounding terms, the CDF accurate to 1e-12 relative in both tails.  These are
-    tested by the harness monitors.  The constant 20t for wt is not proved either: see
-    [C17_wt_distance_partial]. *)
+    tested by the harness monitors.  The real-number part of the constant 20t for wt IS proved
+    (for 0 < t <= 1/100, the supported range): [C17_wt_distance] at the end of the file
+    ([C17_wt_distance_partial] is the earlier, weaker statement, kept). *)
 From Coq Require Import Reals.
 From OSV Require Import Num Gauss RInst.
-From OSV.Lemmas Require C17L.
+From OSV.Lemmas Require C17L C17SharpL.
 From OSV Require GaussInst GaussFull.
 Open Scope R_scope.
 
@@ -193,7 +194,9 @@ Print Assumptions C17_wt_range_exact.
     middle branch (2^-52 <= window mass < 1e-5) the error is about 2 t |x|, and turning that
     into 20 t needs |x| <= ~8.3 there, i.e. a quantitative upper bound on Phi's tail
     (window mass >= 2^-52 with t <= 1e-2 forces |x| < 8.3), which is a numerical fact about
-    Phi not contained in [GaussFacts]; the 1e-13/t term is binary64 rounding. *)
+    Phi not contained in [GaussFacts]; the 1e-13/t term is binary64 rounding.
+    UPDATE: the 20 t bound is now proved from [GaussFacts] alone, see [C17_wt_distance] below
+    (the tail bound follows from [gf_mills] and a rational bound on exp(-34)). *)
 Theorem C17_wt_distance_partial :
   forall Phi Phiinv : R -> R, GaussFacts Phi Phiinv ->
   forall x t : R,
@@ -367,3 +370,127 @@ Theorem C17_wt_guard_distance_inst :
   <= t * t.
 Proof. exact (C17_wt_guard_distance GaussInst.PhiK GaussInst.PhiinvK GaussFull.GaussFacts_inst). Qed.
 Print Assumptions C17_wt_guard_distance_inst.
+
+(** ** The sharp distance of wt to W~: the constant 20 t  (proofs in Lemmas/C17SharpL.v).
+
+    All five theorems assume [GaussFacts] only; their [_inst] corollaries (no premise about the
+    normal law) follow.  Non-vacuity of the [GaussFacts] premise: [GaussFull.GaussFacts_inst]
+    (no concrete [Example] over R is feasible for these statements).
+
+    For a window (a, b) on one side of the mode (b <= 0) the mean of the standard normal
+    truncated to the window lies in the half of the window nearer to the mode.  (Derived from
+    [gf_band] and [gf_window] by halving the window k times and letting k -> oo.) *)
+Theorem C17_trunc_mean_mode_half :
+  forall Phi Phiinv : R -> R, GaussFacts Phi Phiinv ->
+  forall a b : R,
+  a < b -> b <= 0 ->
+  (a + b) / 2 <= (phi a - phi b) / (Phi b - Phi a) <= b.
+Proof. exact C17SharpL.mean_mode_half. Qed.
+Print Assumptions C17_trunc_mean_mode_half.
+
+(** A window mass of at least 2^-52 (i.e. NOT the epsilon-guard branch of wt; in particular the
+    middle branch 2^-52 <= mass < 1e-5) forces |x| < 8.25 + t (stronger than 8.4 + t):
+    Phi(-33/4) < phi(33/4)/(33/4) < 2^-52 by the Mills bound [gf_mills] and a rational bound on
+    exp(-34) obtained by repeated squaring. *)
+Theorem C17_middle_branch_x_bound :
+  forall Phi Phiinv : R -> R, GaussFacts Phi Phiinv ->
+  forall x t : R,
+  / 4503599627370496 <= Phi (t - Rabs x) - Phi (- t - Rabs x) ->
+  Rabs x < 33 / 4 + t.
+Proof. exact C17SharpL.middle_branch_x_bound. Qed.
+Print Assumptions C17_middle_branch_x_bound.
+
+(** On the middle branch, when the window does not contain the mode (t <= |x|), the code's
+    edge value (t - |x|)^2 is within t * 2|x| of the squared truncated mean: *)
+Theorem C17_wt_middle_branch :
+  forall Phi Phiinv : R -> R, GaussFacts Phi Phiinv ->
+  forall x t : R,
+  0 < t <= 1 -> t <= Rabs x ->
+  / 4503599627370496 <= Phi (t - Rabs x) - Phi (- t - Rabs x) ->
+  Phi (t - Rabs x) - Phi (- t - Rabs x) < @f1em5 R (RNum Phi Phiinv) ->
+  Rabs (@wt R (RNum Phi Phiinv) x t
+        - (((t - x) * phi (t - x) + (t + x) * phi (- t - x)) / (Phi (t - x) - Phi (- t - x))
+           + (phi (- t - x) - phi (t - x)) / (Phi (t - x) - Phi (- t - x))
+             * ((phi (- t - x) - phi (t - x)) / (Phi (t - x) - Phi (- t - x)))))
+  <= 2 * t * Rabs x.
+Proof. exact C17SharpL.wt_middle_sharp. Qed.
+Print Assumptions C17_wt_middle_branch.
+
+(** Every branch, 0 < t <= 1: |wt - W~| <= 2 t |x| + 8 t^2  (0 above the 1e-5 guard, t^2 below the
+    epsilon guard, 2 t |x| on the middle branch with t <= |x|, 8 t^2 on it with |x| < t). *)
+Theorem C17_wt_distance_sharp :
+  forall Phi Phiinv : R -> R, GaussFacts Phi Phiinv ->
+  forall x t : R,
+  0 < t <= 1 ->
+  Rabs (@wt R (RNum Phi Phiinv) x t
+        - (((t - x) * phi (t - x) + (t + x) * phi (- t - x)) / (Phi (t - x) - Phi (- t - x))
+           + (phi (- t - x) - phi (t - x)) / (Phi (t - x) - Phi (- t - x))
+             * ((phi (- t - x) - phi (t - x)) / (Phi (t - x) - Phi (- t - x)))))
+  <= 2 * t * Rabs x + 8 * (t * t).
+Proof. exact C17SharpL.wt_distance_sharp. Qed.
+Print Assumptions C17_wt_distance_sharp.
+
+(** THE PROPERTY's real-number part: for 0 < t <= 1/100 and EVERY x, |wt - W~| <= 20 t.
+    (On the middle branch |x| < 8.25 + t, so 2 t |x| + 8 t^2 <= 16.6 t.)  The extra 1e-13/t of
+    the property is binary64 rounding, not a statement over R. *)
+Theorem C17_wt_distance :
+  forall Phi Phiinv : R -> R, GaussFacts Phi Phiinv ->
+  forall x t : R,
+  0 < t <= / 100 ->
+  Rabs (@wt R (RNum Phi Phiinv) x t
+        - (((t - x) * phi (t - x) + (t + x) * phi (- t - x)) / (Phi (t - x) - Phi (- t - x))
+           + (phi (- t - x) - phi (t - x)) / (Phi (t - x) - Phi (- t - x))
+             * ((phi (- t - x) - phi (t - x)) / (Phi (t - x) - Phi (- t - x)))))
+  <= 20 * t.
+Proof. exact C17SharpL.wt_distance_20t. Qed.
+Print Assumptions C17_wt_distance.
+
+(** The same five statements for the concrete distribution function, no premise. *)
+Theorem C17_trunc_mean_mode_half_inst :
+  forall a b : R,
+  a < b -> b <= 0 ->
+  (a + b) / 2 <= (phi a - phi b) / (GaussInst.PhiK b - GaussInst.PhiK a) <= b.
+Proof. exact (C17_trunc_mean_mode_half GaussInst.PhiK GaussInst.PhiinvK GaussFull.GaussFacts_inst). Qed.
+Print Assumptions C17_trunc_mean_mode_half_inst.
+
+Theorem C17_middle_branch_x_bound_inst :
+  forall x t : R,
+  / 4503599627370496 <= GaussInst.PhiK (t - Rabs x) - GaussInst.PhiK (- t - Rabs x) ->
+  Rabs x < 33 / 4 + t.
+Proof. exact (C17_middle_branch_x_bound GaussInst.PhiK GaussInst.PhiinvK GaussFull.GaussFacts_inst). Qed.
+Print Assumptions C17_middle_branch_x_bound_inst.
+
+Theorem C17_wt_middle_branch_inst :
+  forall x t : R,
+  0 < t <= 1 -> t <= Rabs x ->
+  / 4503599627370496 <= GaussInst.PhiK (t - Rabs x) - GaussInst.PhiK (- t - Rabs x) ->
+  GaussInst.PhiK (t - Rabs x) - GaussInst.PhiK (- t - Rabs x) < @f1em5 R (RNum GaussInst.PhiK GaussInst.PhiinvK) ->
+  Rabs (@wt R (RNum GaussInst.PhiK GaussInst.PhiinvK) x t
+        - (((t - x) * phi (t - x) + (t + x) * phi (- t - x)) / (GaussInst.PhiK (t - x) - GaussInst.PhiK (- t - x))
+           + (phi (- t - x) - phi (t - x)) / (GaussInst.PhiK (t - x) - GaussInst.PhiK (- t - x))
+             * ((phi (- t - x) - phi (t - x)) / (GaussInst.PhiK (t - x) - GaussInst.PhiK (- t - x)))))
+  <= 2 * t * Rabs x.
+Proof. exact (C17_wt_middle_branch GaussInst.PhiK GaussInst.PhiinvK GaussFull.GaussFacts_inst). Qed.
+Print Assumptions C17_wt_middle_branch_inst.
+
+Theorem C17_wt_distance_sharp_inst :
+  forall x t : R,
+  0 < t <= 1 ->
+  Rabs (@wt R (RNum GaussInst.PhiK GaussInst.PhiinvK) x t
+        - (((t - x) * phi (t - x) + (t + x) * phi (- t - x)) / (GaussInst.PhiK (t - x) - GaussInst.PhiK (- t - x))
+           + (phi (- t - x) - phi (t - x)) / (GaussInst.PhiK (t - x) - GaussInst.PhiK (- t - x))
+             * ((phi (- t - x) - phi (t - x)) / (GaussInst.PhiK (t - x) - GaussInst.PhiK (- t - x)))))
+  <= 2 * t * Rabs x + 8 * (t * t).
+Proof. exact (C17_wt_distance_sharp GaussInst.PhiK GaussInst.PhiinvK GaussFull.GaussFacts_inst). Qed.
+Print Assumptions C17_wt_distance_sharp_inst.
+
+Theorem C17_wt_distance_inst :
+  forall x t : R,
+  0 < t <= / 100 ->
+  Rabs (@wt R (RNum GaussInst.PhiK GaussInst.PhiinvK) x t
+        - (((t - x) * phi (t - x) + (t + x) * phi (- t - x)) / (GaussInst.PhiK (t - x) - GaussInst.PhiK (- t - x))
+           + (phi (- t - x) - phi (t - x)) / (GaussInst.PhiK (t - x) - GaussInst.PhiK (- t - x))
+             * ((phi (- t - x) - phi (t - x)) / (GaussInst.PhiK (t - x) - GaussInst.PhiK (- t - x)))))
+  <= 20 * t.
+Proof. exact (C17_wt_distance GaussInst.PhiK GaussInst.PhiinvK GaussFull.GaussFacts_inst). Qed.
+Print Assumptions C17_wt_distance_inst.
